@@ -20,6 +20,19 @@ type Replay struct {
 	Label   string                 `json:"label"`
 	Inputs  map[string]interface{} `json:"inputs"`
 	Forks   []int                  `json:"forks"`
+	Tier    int                    `json:"tier"`
+	// expectations recorded by the engine (samples)
+	Reached  []string `json:"reached,omitempty"`
+	Observed []string `json:"observed,omitempty"`
+	Outcome  string   `json:"outcome,omitempty"`
+}
+
+// Tier: 0 quick, 1 thorough (harnesses choose their bounds from it).
+func Tier() int {
+	if st.rp != nil {
+		return st.rp.Tier
+	}
+	return 0
 }
 
 type state struct {
@@ -202,4 +215,75 @@ func RunGoroutine(fn func()) (panicked interface{}, done bool) {
 	}()
 	<-ch
 	return
+}
+
+type nativeResult struct {
+	File         string   `json:"file"`
+	Failures     []string `json:"failures"`
+	Reached      []string `json:"reached"`
+	Observed     []string `json:"observed"`
+	AssumeFailed bool     `json:"assume_failed"`
+	Panicked     string   `json:"panicked"`
+	TimedOut     bool     `json:"timed_out"`
+	Missing      []string `json:"missing"`
+}
+
+// ReplayMain runs every replay file listed in $ZV_REPLAY_LIST through the
+// natively compiled harness and prints one ZVRESULT line per file.
+func ReplayMain(table map[string]func()) {
+	list, err := os.ReadFile(os.Getenv("ZV_REPLAY_LIST"))
+	if err != nil {
+		fmt.Println("ZVERROR", err)
+		return
+	}
+	for _, f := range splitLines(string(list)) {
+		res := nativeResult{File: f}
+		if err := Load(f); err != nil {
+			res.Panicked = "load: " + err.Error()
+			emit(res)
+			continue
+		}
+		fn := table[st.rp.Harness]
+		if fn == nil {
+			res.Panicked = "unknown harness " + st.rp.Harness
+			emit(res)
+			continue
+		}
+		my := st
+		done := make(chan struct{})
+		var panicked interface{}
+		go func() {
+			defer close(done)
+			defer func() {
+				if r := recover(); r != nil {
+					panicked = r
+				}
+			}()
+			fn()
+		}()
+		select {
+		case <-done:
+		case <-timeAfter(20):
+			res.TimedOut = true
+		}
+		if panicked != nil {
+			res.Panicked = fmt.Sprint(panicked)
+			if len(res.Panicked) > 300 {
+				res.Panicked = res.Panicked[:300]
+			}
+		}
+		my.mu.Lock()
+		res.Failures = append([]string{}, my.Failures...)
+		res.Reached = sortedUnique(my.Reached)
+		res.Observed = append([]string{}, my.Observed...)
+		res.AssumeFailed = my.AssumeFailed
+		res.Missing = my.Missing
+		my.mu.Unlock()
+		emit(res)
+	}
+}
+
+func emit(r nativeResult) {
+	data, _ := json.Marshal(r)
+	fmt.Println("ZVRESULT " + string(data))
 }
